@@ -151,6 +151,7 @@ func (r *registry) put(addr string, sc *scenario) {
 	r.m[addr] = sc
 	r.mu.Unlock()
 }
+
 // del removes the entry only if it still belongs to sc: ports are reused as soon as a
 // socket is closed, and a later scenario may already own the address.
 func (r *registry) del(addr string, sc *scenario) {
